@@ -8,6 +8,7 @@ CONSTANTS Keys = {1, 2, 3}
           EK = 0
           TName = "IntIntMap"
           NHeld = 1
+          NEnum = 0
 VIEW View
 INVARIANTS SetOK RefuseOK KeysBagExact WireRoundTrip
 PROPERTIES Frame PutStores RefusalInert AddSums AddIfExistNeverCreates RemoveExact ClearEmpties PutAllIsPuts ReadOnlyKeeps OthersKept PutAllFromIsPuts SizeLaw
